@@ -457,8 +457,16 @@ fn check_case(run: &mut Run, ctx: &mut Ctx, case: &Case) {
 fn main() {
     let mut run = Run::from_env("C19");
     if let Some(c) = run.replay_case() {
+        // which maximal pair wins a tie depends on per-process HashMap seeds: repeat the case until
+        // a violation shows (a violating tie-break that has probability 1/2 per run is then missed
+        // with probability 2^-64)
         let mut ctx = Ctx::new();
-        check_case(&mut run, &mut ctx, &Case::from_json(&c));
+        for _ in 0..32 {
+            check_case(&mut run, &mut ctx, &Case::from_json(&c));
+            if run.num_violations() > 0 {
+                break;
+            }
+        }
         drop(ctx);
         run.finish();
     }
@@ -472,6 +480,16 @@ fn main() {
             corpora.push(vec![x.clone(), y.clone()]);
         }
     }
+    // quick only (the thorough two-line family contains it): a first line of at most 2 symbols and a
+    // second line of exactly 4 -- the smallest corpora in which a pair occurs overlapping itself
+    // (xyxy) while its mirror image yx is a word of its own
+    if run.quick() {
+        for x in strings(&ALPHA, 2) {
+            for y in strings(&ALPHA, 4).into_iter().filter(|y| y.chars().count() == 4) {
+                corpora.push(vec![x.clone(), y]);
+            }
+        }
+    }
     if let Some(n) = run.describe_unit() {
         println!("{}", json!({"lines": corpora.get(n as usize), "grid": "requested merges {0,1,2,3,5,60} x normalization {none, nfkc} x num_threads {0,1,2,3}, each trained twice"}));
         return;
@@ -483,6 +501,9 @@ fn main() {
     run.bounds.insert("alphabet".into(), json!(ALPHA));
     run.bounds.insert("one_line_corpora_max_symbols".into(), json!(one_line_max));
     run.bounds.insert("two_line_corpora_max_symbols_per_line".into(), json!(two_line_max));
+    if run.quick() {
+        run.bounds.insert("two_line_corpora_extra".into(), json!("first line of at most 2 symbols, second line of exactly 4 symbols"));
+    }
     run.bounds.insert("corpora".into(), json!(corpora.len()));
     run.bounds.insert("requested_merges".into(), json!(MERGES.iter().map(|m| json!({"merges": m.0, "vocab_size": m.1, "num_special_tokens": m.2})).collect::<Vec<_>>()));
     run.bounds.insert("normalization".into(), json!(["none", "nfkc"]));
@@ -491,7 +512,7 @@ fn main() {
     run.bounds.insert("tokenizer_texts".into(), json!(format!("all strings over the alphabet with at most {TOK_MAX_LEN} symbols")));
     run.extra.insert(
         "rule".into(),
-        json!("every corpus (one file of one line up to the one-line bound, or of two lines up to the two-line bound each, shortlex) x requested merges x normalization x num_threads, each trained twice with the real train_bpe (HashMap seeds differ between runs; both tables must satisfy the oracle); a case is non-trivial when at least one merge is requested and the corpus has at least one adjacent pair; evaluations = cases, compared = tables judged"),
+        json!("every corpus (one file of one line up to the one-line bound, or of two lines up to the two-line bound each, shortlex; quick adds the two-line files with at most 2 + exactly 4 symbols) x requested merges x normalization x num_threads, each trained twice with the real train_bpe (HashMap seeds differ between runs; both tables must satisfy the oracle); a case is non-trivial when at least one merge is requested and the corpus has at least one adjacent pair; evaluations = cases, compared = tables judged"),
     );
     run.assumptions.push("the corpus words are the whitespace-separated words of each line, the first bare and the others with one leading space (refs::bpe_corpus_words); NFKC is the identity on the alphabet (asserted)".into());
     run.assumptions.push("pair frequency counts every adjacent position (overlapping occurrences as in 'aaa' count twice); any pair of maximal frequency is accepted at every step".into());
